@@ -127,8 +127,11 @@ Definition constant_hop_timebase (hop end_time : Q) : res (list Q) :=
        else Ok (map (fun i => round10 (inject_Z (Z.of_nat i) * hop)) (seq 0 (Z.to_nat (n + 1)))).
 
 (* ---------------------------------------------------------------- resample_melody_series, kind = 'linear' *)
-(* np.allclose(a, b): |a - b| <= atol + rtol * |b| with atol = 1e-8, rtol = 1e-5 *)
-Definition close1 (a b : Q) : bool := qleb (Qabs (a - b)) ((1#100000000) + (1#100000) * Qabs b).
+(* np.allclose(a, b): |a - b| <= atol + rtol * |b| with atol = 1e-8, rtol = 1e-5 - the binary64 values of these literals, as NumPy uses them
+   (the decimal fractions were a modelling error found by the translation tie of resample_melody_series: times=[1e-08] vs [0.]) *)
+Definition ATOL : Q := 3022314549036573 # 302231454903657293676544.
+Definition RTOL : Q := 5902958103587057 # 590295810358705651712.
+Definition close1 (a b : Q) : bool := qleb (Qabs (a - b)) (ATOL + RTOL * Qabs b).
 Definition allclose (a b : list Q) : bool := forallb (fun p => close1 (fst p) (snd p)) (combine a b).
 Fixpoint diffs (l : list Q) : list Q :=
   match l with x :: t => match t with y :: _ => (y - x) :: diffs t | [] => [] end | [] => [] end.
